@@ -187,12 +187,18 @@ func (l *listener) Acceptor() transport.Acceptor {
 
 // Close listener
 func (l *listener) Close() error {
-	l.bs.removeListener(l.url)
-
 	l.mutex.Lock()
+	first := !l.closed
 	l.closed = true
 	acceptor := l.acceptor
 	l.mutex.Unlock()
+
+	// the registry is keyed by url and a url can be listened on again once its listener is
+	// closed: only the call that closes this listener removes the entry, a repeated Close
+	// must not unregister the listener that took the url over.
+	if first {
+		l.bs.removeListener(l.url)
+	}
 
 	if acceptor != nil {
 		return acceptor.Close()
